@@ -95,14 +95,15 @@ def oct_tasks(tier):
   __CPROVER_assume(oct_wf(&G_OX) && oct_wf(&G_OY) && opt_ok());
   G_osatX0 = osat(&G_OX.s); G_osatY0 = osat(&G_OY.s);"""
     T = []
-    d = int(os.environ.get("VERIF_OCT_DIM", "1"))     # dimension 2 (12 cells) was tried: see DESIGN.md 10.2
-    bound = {"unwind": 2 * d * (d + 1) + 2, "note": "space dimension %d (%d stored cells); matrix contents, status flags and ghost point arbitrary; loops unwound with unwinding assertions" % (d, 2 * d * (d + 1))}
-    kw = dict(bounded=bound, timeout=3000, object_bits=9, defs={"OD": d, "OPT_RANGE": "((int64_t)1 << %d)" % (w + 2)}, split_post=True, mem_gb=40, harness_pre=pre, group="octagon s8")
-    for (name, call, two) in [("closure", "FN_o_closure(&G_OX.s)", False), ("is_empty", "_Bool r = FN_o_is_empty(&G_OX.s)", False),
-                              ("intersection", "FN_o_intersection(&G_OX.s, &G_OY.s)", True), ("contains", "_Bool r = FN_o_contains(&G_OX.s, &G_OY.s)", True),
-                              ("is_disjoint_from", "_Bool r = FN_o_is_disjoint_from(&G_OX.s, &G_OY.s)", True), ("equal", "_Bool r = FN_o_equal(&G_OX.s, &G_OY.s)", True)]:
-        T.append(Task("oct/s8/%s/dim%d" % (name, d), u, "FN_o_" + name, ["C03/oct.h"], [], call,
-                      reach=[("point in both", "G_osatX0 && G_osatY0")] if two else [("point inside", "G_osatX0")], **kw))
+    for d in ((1,) if tier == "quick" else (1, 2)):
+        bound = {"unwind": 2 * d * (d + 1) + 2, "note": "space dimension %d (%d stored cells); matrix contents, status flags and ghost point arbitrary; loops unwound with unwinding assertions" % (d, 2 * d * (d + 1))}
+        kw = dict(bounded=bound, timeout=3000, object_bits=9, defs={"OD": d, "OPT_RANGE": "((int64_t)1 << %d)" % (w + 2)}, split_post=True, mem_gb=40, harness_pre=pre, group="octagon s8")
+        for (name, call, two) in [("closure", "FN_o_closure(&G_OX.s)", False), ("is_empty", "_Bool r = FN_o_is_empty(&G_OX.s)", False),
+                                  ("intersection", "FN_o_intersection(&G_OX.s, &G_OY.s)", True), ("contains", "_Bool r = FN_o_contains(&G_OX.s, &G_OY.s)", True),
+                                  ("is_disjoint_from", "_Bool r = FN_o_is_disjoint_from(&G_OX.s, &G_OY.s)", True), ("equal", "_Bool r = FN_o_equal(&G_OX.s, &G_OY.s)", True)]:
+            if d == 2 and name in ("contains", "is_disjoint_from", "equal"): continue     # two strong closures of 12 cells: exhaust 40 GB (tried, undecided)
+            T.append(Task("oct/s8/%s/dim%d" % (name, d), u, "FN_o_" + name, ["C03/oct.h"], [], call,
+                          reach=[("point in both", "G_osatX0 && G_osatY0")] if two else [("point inside", "G_osatX0")], **kw))
     return [u], T
 
 def build(tier):
